@@ -37,6 +37,7 @@
    All times in ms since the relay was created.                                   *)
 From Coq Require Import List ZArith Bool.
 From Verif Require Import lib.Wire gen.Consts_c11 c11.Model.
+From Verif Require c11.SpecClient.
 Import ListNotations.
 Local Open Scope Z_scope.
 
@@ -399,13 +400,15 @@ Definition decode_case (l : list Z) : option (cfg * list ev) :=
   end.
 
 Definition conform_case (l : list Z) : list Z :=
+  match l with 2 :: r => SpecClient.client_conform r | _ =>
   match decode_case l with
   | Some (c, es) => conform_run c init_st 0 es
   | None => [ERR_MALFORMED; 0]
-  end.
+  end end.
 
 Definition monitor_case (l : list Z) : list Z :=
+  match l with 2 :: r => SpecClient.client_monitor r | _ =>
   match decode_case l with
   | Some (c, es) => monitor c es
   | None => [ERR_MALFORMED; 0]
-  end.
+  end end.
